@@ -498,7 +498,7 @@ func TestC18Consecutive(t *testing.T) {
 			pattern := ""
 			for i := 0; i < n; i++ {
 				failing := rapid.IntRange(0, 2).Draw(rt, "fail") > 0
-				c.a.Fleet = sim.FleetPlan{Split: 1, PageSize: 50}
+				c.a.Fleet = sim.FleetPlan{Split: rapid.IntRange(1, 3).Draw(rt, "split"), PageSize: 50}
 				if failing {
 					c.a.Fleet.NeverReady = 1
 					pattern += "F"
